@@ -26,17 +26,20 @@ LIB = [
     (('rule', 'Tcount', ['n'], ('rep', ('lit', 'a'), 'n', 'n')), ['i']),
     (('rule', 'Tpair', ['p'], ('seq', [('ref', 'p'), ('ref', 'p')])), ['p']),
     (('rule', 'Tval', ['v'], ('py', '(v, v)')), ['v']),
-    (('rule', 'Tsep', ['p', 'q'], ('sep', ('ref', 'p'), ('ref', 'q'), False, False, True, False)), ['p', 'p']),
+    (('rule', 'Tsep', ['p', 'q'], ('sep', ('ref', 'p'), ('ref', 'q'), False, False, True, False)), ['P', 'p']),
     (('rule', 'Tkw', ['p', 'v'], ('seq', [('ref', 'p'), ('py', 'v')])), ['p', 'v']),
     (('rule', 'Trec', ['d'], ('choice', [('left', ('right', ('lit', '1'), ('call', 'Trec', [('py', 'd+1')], [])), ('lit', '2')),
                                          ('py', 'd')])), ['i']),
     (('rule', 'Tpass', ['p'], ('call', 'Tpair', [('left', ('ref', 'p'), ('opt', ('lit', 'b')))], [])), ['p']),
     (('rule', 'Topt', ['p', 'x'], ('seq', [('opt', ('ref', 'p')), ('where', ('ref', 'W'), ('py', 'lambda v: v != x'))])), ['p', 's']),
+    (('rule', 'Tcap2', ['p', 'q'], ('call', 'Tpair', [('seq', [('ref', 'p'), ('opt', ('ref', 'q'))])], [])), ['p', 'p']),
+    (('rule', 'Tcap3', ['p', 'x'], ('call', 'Tpair', [('call', 'Tkw', [('ref', 'p'), ('ref', 'x')], [])], [])), ['p', 'v']),
     (('class', 'CP', ['p', 'n'], [('field', 'first', ('ref', 'p')), ('field', 'rest', ('rep', ('lit', 'b'), None, 'n'))]), ['p', 'i']),
     (('class', 'CV', ['x'], [('field', 'w', ('ref', 'W')), ('requires', None, ('py', 'w != x')), ('field', 'tag', ('py', 'x'))]), ['s']),
 ]
 LIB_NULL = {'Tsame': False, 'Tlen': False, 'Tcount': True, 'Tpair': True, 'Tval': True, 'Tsep': True,
-            'Tkw': True, 'Trec': True, 'Tpass': True, 'Topt': True, 'CP': True, 'CV': False}
+            'Tkw': True, 'Trec': True, 'Tpass': True, 'Topt': True, 'CP': True, 'CV': False, 'Tcap2': True,
+            'Tcap3': True}
 
 NAMES = ['x', 'y', 'z', 'n', 'm', 'k']
 
@@ -50,6 +53,7 @@ class Ctx:
         self.classes = classes            # parameterless class names usable as references
         self.rules_null = rules_null
         self.allow_calls = allow_calls
+        self.mode = 'text'
         self.later = []                   # parameterless rules defined later (no left recursion)
         self.params = {}
 
@@ -71,7 +75,7 @@ def _names(scope, kinds):
 
 @st.composite
 def str_tok(draw, scope):
-    pars = _names(scope, 'p')
+    pars = _names(scope, 'pP')
     if pars and draw(st.integers(0, 3)) == 0:
         return ('ref', draw(st.sampled_from(pars)))
     return draw(st.sampled_from(STR_TOKS))
@@ -138,10 +142,15 @@ def argument(draw, kind, scope, ctx, depth, pyscope=None):
         for x in _names(pyscope, 'siv'):
             opts += [('py', '(%s, 1)' % x), ('py', '[%s]' % x)]
         return draw(st.sampled_from(opts))
+    if kind == 'P':
+        # a parser that cannot succeed without consuming (it is repeated inside the template)
+        return _nonnull(draw(argument('p', scope, ctx, depth, pyscope)), ctx)
     # parser
     choice = draw(st.integers(0, 9))
     pars = _names(scope, 'p')
     if choice <= 1:
+        if ctx.mode == 'bytes' and draw(st.booleans()):
+            return ('byte', draw(st.sampled_from([0x61, 0x62])))
         return draw(st.sampled_from([('lit', 'a'), ('lit', 'b'), ('lit', 'ab')]))
     if choice <= 3:
         return draw(st.sampled_from([('ref', 'A'), ('ref', 'B'), ('ref', 'W')] + [('ref', c) for c in ctx.classes]))
@@ -173,6 +182,8 @@ def call(draw, scope, ctx, depth, pyscope=None):
 def _nonnull(e, ctx):
     if not peg.nullable(e, ctx.rules_null):
         return e
+    if e[0] == 'ref':
+        return ('left', ('lit', 'a'), e)
     return ('right', ('lit', 'a'), e)
 
 
@@ -328,6 +339,7 @@ def rich_grammar(draw, nrules=4, depth=3, use_lib=True, gen_templates=True, mode
         rules_null.update(LIB_NULL)
     ctx = Ctx(templates, [], rules_null)
     ctx.params = params
+    ctx.mode = mode
     # generated classes (parameterless), usable as references
     ncls = draw(st.integers(1, 2))
     for i in range(ncls):
@@ -342,7 +354,7 @@ def rich_grammar(draw, nrules=4, depth=3, use_lib=True, gen_templates=True, mode
             name = 'G%d' % i
             nk = draw(st.integers(1, 3))
             kinds = [draw(st.sampled_from(['s', 'i', 'p', 'p', 'v'])) for _ in range(nk)]
-            ps = ['p%d' % j if k == 'p' else 'a%d' % j for j, k in enumerate(kinds)]
+            ps = ['p%d' % j if k in 'pP' else 'a%d' % j for j, k in enumerate(kinds)]
             scope = dict(zip(ps, kinds))
             if draw(st.integers(0, 3)) == 0:
                 body_rule = draw(gen_class(name, ps, kinds, ctx, depth - 1))
@@ -380,8 +392,30 @@ def family_rules(draw, idx, ctx):
                                           ('call', 'Tval', [('ref', x)], []),
                                           ('apply', ('rx', '[ab]'), ('py', 'lambda v: (v, %s)' % x))]))
     name = 'F%d' % idx
-    fam = draw(st.integers(0, 6))
+    fam = draw(st.integers(0, 9))
     x = draw(st.sampled_from(['x', 'y', 'n']))
+    if fam >= 7:
+        # the same template instantiated twice at one position with arguments that differ only
+        # by order / in a nested place (memo keys must tell them apart)
+        a1, a2 = draw(st.sampled_from([(('lit', 'a'), ('lit', 'b')), (('ref', 'A'), ('ref', 'B')),
+                                       (('lit', 'a'), ('rx', '[ab]')), (('py', '1'), ('py', '2')),
+                                       (('py', '[1, 2]'), ('py', '[2, 1]')), (('py', '1'), ('py', '"1"'))]))
+        if a1[0] == 'py':
+            c1 = ('call', 'Tkw', [('lit', 'a'), ('py', '(%s, %s)' % (a1[1], a2[1]))], [])
+            c2 = ('call', 'Tkw', [('lit', 'a'), ('py', '(%s, %s)' % (a2[1], a1[1]))], [])
+            if fam == 8:
+                c1 = ('call', 'Tval', [a1], [])
+                c2 = ('call', 'Tval', [a2], [])
+        elif fam == 7:
+            c1 = ('call', 'Tsep', [a1, a2], [])
+            c2 = ('call', 'Tsep', [a2, a1], [])
+        elif fam == 8:
+            c1 = ('call', 'Tcap2', [a1, a2], [])
+            c2 = ('call', 'Tcap2', [a2, a1], [])
+        else:
+            c1 = ('call', 'Tpair', [('seq', [a1, ('opt', a2)])], [])
+            c2 = ('call', 'Tpair', [('seq', [a2, ('opt', a1)])], [])
+        return [('rule', name, None, ('choice', [('left', c1, ('lit', '2')), c2, ('seq', [('expect', c2), c1])]))]
     if fam == 0:      # alternative 1 binds x, consumes, fails; alternative 2 binds x differently
         return [('rule', name, None, ('choice', [
             ('let', x, t(), ('seq', [t(), ('lit', '2')])),
